@@ -244,7 +244,7 @@ def check_text_union(prog, rep):
                         po = Origins(parent)
                         for bj in sorted(po.cfg.live_blocks()):
                             pt = parent.body["blocks"][bj]["t"]
-                            if pt and pt["k"] == "call" and pt["f"].get("name") in ("map", "for_each", "try_for_each", "try_fold", "fold"):
+                            if pt and pt["k"] == "call" and pt["f"].get("name") in ("map", "for_each", "try_for_each", "try_fold", "fold", "filter_map", "flat_map", "scan"):
                                 pa = po.term_args(bj)
                                 clo = [n for x in pa for n in walk(x) if n[0] == "agg" and n[1] == "closure:" + g.id]
                                 if clo and any(n[0] == "call" and n[1].endswith("::lines") for n in walk(pa[0])):
@@ -311,6 +311,21 @@ def _text_fold(prog, rep, bb):
                         roots.append(c)
 
     cur = [None]
+    # closures handed to `reduce`: |acc, item| — the item is what the upstream closure yields per line, a
+    # (top_left, bottom_right) pair when that closure builds one (checked through `inits` below); the accumulator is not
+    reduce_closures = set()
+    for f_ in roots:
+        if not f_.body:
+            continue
+        for b_ in f_.body["blocks"]:
+            t_ = b_["t"]
+            if t_ and t_["k"] == "call" and t_["f"].get("name") == "reduce":
+                for s2 in f_.body["blocks"]:
+                    for st_ in s2["s"]:
+                        if st_["k"] == "assign" and st_["rv"].get("k") == "agg" and st_["rv"].get("agg") == "closure" and st_["rv"].get("closure"):
+                            g_ = prog.fns.get(st_["rv"]["closure"])
+                            if g_ is not None and g_.body["argc"] == 3:
+                                reduce_closures.add(g_.id)
 
     def is_metrics(x):
         """is tree x a TextMetrics value (a parameter / capture of that type, or the result of measure_string)?"""
@@ -344,6 +359,8 @@ def _text_fold(prog, rep, bb):
             return "tl", None
         if is_br(t):
             return "br", None
+        if cur[0] is not None and cur[0].id in reduce_closures and t[0] == "field" and strip_refs(t[1])[0] == "param" and strip_refs(t[1])[1] == 3 and t[2] in (0, 1):
+            return ("tl", "br")[t[2]], None
         if t[0] == "field" and isinstance(t[2], int):
             if is_tl(t[1]):
                 return "tl", t[2]
